@@ -458,25 +458,24 @@ def mon_expect(run, script, il, iab, ml):
             run.cov['monitor_checks'] += 1
             mod, bits = int(args[0]), int(args[1])
             x = f32(bits)
-            f = last or {}
+            f = next((fields(l) for l in reversed(ops) if is_op(l)), {})
             hi = 300000.0 if mod == FSK else 25000.0
             valid = (x == x) and 1200.0 <= x <= hi
             rc = f.get('rc')
             if valid != (rc == '0'):
                 run.violation('bit rate %r: rc=%s (documented range 1200..%d)' % (x, rc, hi), script)
-            elif valid:
-                ents = spi_entries(f.get('spi'))
-                msb = next((e for e in ents if e['kind'] == 'W' and e['reg'] == 2), None)
-                frac = next((e for e in ents if e['kind'] == 'W' and e['reg'] == 0x5d), None)
-                if msb and frac:
-                    v = int(msb['data'], 16) * 16 + (int(frac['data'], 16) & 15)
-                    exact = Fraction(32000000 * 16) / Fraction(x)
-                    if mod == OOK:
-                        # no fractional part in OOK: one step is a whole divider unit
-                        if not (0 <= exact / 16 - int(msb['data'], 16) < 1):
-                            run.violation('OOK bit rate %r programmed divider %d, exact %s' % (x, int(msb['data'], 16), float(exact / 16)), script)
-                    elif not (0 <= exact - v < 1):
-                        run.violation('FSK bit rate %r programmed divider %d/16, exact %s/16' % (x, v, float(exact)), script)
+            elif valid and dumps:
+                # what the chip holds after the call (RegBitrateMsb/Lsb, RegBitRateFrac)
+                d = dumps[-1]
+                div = d['s'][2] * 256 + d['s'][3]
+                v = div * 16 + (d['s'][0x5d] & 15)
+                exact = Fraction(32000000 * 16) / Fraction(x)
+                if mod == OOK:
+                    # no fractional part in OOK: one step is a whole divider unit
+                    if not (0 <= exact / 16 - div < 1):
+                        run.violation('OOK bit rate %r programmed divider %d, exact %s' % (x, div, float(exact / 16)), script)
+                elif not (0 <= exact - v < 1):
+                    run.violation('FSK bit rate %r: the chip holds divider %d/16, exact %s/16' % (x, v, float(exact)), script)
         elif kind == 'fdev' and P == 'C12':
             run.cov['monitor_checks'] += 1
             x = f32(int(args[0]))
@@ -526,7 +525,7 @@ def mon_expect(run, script, il, iab, ml):
                 else:
                     total = res[r1] * w[0x39] + res[r2] * w[0x3a]
                     dev = Fraction(iv) - total
-                    lim = Fraction(262) if iv > 67856 else Fraction(41, 10)
+                    lim = Fraction(262) if iv > 67800 else Fraction(41, 10)   # "262 ms above 67.8 s"
                     fine = min(res[r1] if w[0x39] else res[r2], res[r2] if w[0x3a] else res[r1])
                     if not (0 <= dev < lim + Fraction(1, 1000)):
                         run.violation('beacon %d ms programmed as %s ms (T1=%d x %s, T2=%d x %s)' % (iv, float(total), w[0x39], float(res[r1]), w[0x3a], float(res[r2])), script)
